@@ -523,7 +523,85 @@ def exec_stdio_routed_case(ctx, case: Dict[str, Any]) -> None:
     ctx.record(case, shape=shape, nontrivial=True, cls=f"stdio:routed:{conns}", sample={"case": case, "outcomes": shape})
 
 
+def exec_paramless_case(ctx, case: Dict[str, Any]) -> None:
+    """n callers outstanding together on one connection, all asking the same param-less method (ping, tools/list): the
+    peer takes the requests off the write stream only after all of them have been written - as every transport's writer
+    task may - and answers them in the order written."""
+    from chuk_mcp.protocol.messages.send_message import send_message
+    from chuk_mcp.protocol.messages.json_rpc_message import parse_message
+    from vf.ref import msg_to_wire
+    n, method, ids = case["n"], case["method"], case["ids"]
+
+    async def main():
+        pipe = Pipe(buffer=1000)
+        loop = asyncio.get_running_loop()
+        outcomes: Dict[int, Any] = {}
+        seen: List[Any] = []
+
+        async def caller(i: int):
+            mid = f"p-{i}" if ids == "explicit" else None
+            try:
+                if case.get("helper") == "ping":
+                    from chuk_mcp.protocol.messages.ping.send_messages import send_ping
+                    outcomes[i] = ("return", await send_ping(pipe.read, pipe.write, timeout=TIMEOUT))
+                else:
+                    outcomes[i] = ("return", await send_message(pipe.read, pipe.write, method, None, timeout=TIMEOUT, message_id=mid))
+            except BaseException as e:  # noqa
+                if isinstance(e, (KeyboardInterrupt, SystemExit)):
+                    raise
+                outcomes[i] = ("raise", e)
+
+        async def server():
+            await asyncio.sleep(case.get("read_after", 0.05))     # every caller has written by now
+            for _ in range(n):
+                req = await pipe.srv_recv.receive()
+                seen.append(msg_to_wire(req))
+            for w in seen:                                         # answered in the order written
+                pipe.srv_send.send_nowait(parse_message({"jsonrpc": "2.0", "id": w.get("id"), "result": {"for": w.get("id")}}))
+                await asyncio.sleep(0.01)
+
+        st = asyncio.create_task(server(), name="server")
+        await asyncio.gather(*[asyncio.create_task(caller(i), name=f"caller-{i}") for i in range(n)])
+        st.cancel()
+        pipe.close()
+        return outcomes, seen
+
+    try:
+        (outcomes, seen), _ = run_virtual(main, max_iterations=300_000)
+    except HangDetected as e:
+        ctx.violation("hang", f"param-less concurrent callers: {e}", case)
+        ctx.record(case, shape="hang")
+        return
+    ctx.count("paramless_calls", n)
+    wire_ids = [w.get("id") for w in seen]
+    if len(set(map(repr, wire_ids))) != n or (ids == "explicit" and sorted(wire_ids) != sorted(f"p-{i}" for i in range(n))):
+        ctx.violation("request_altered_after_hand_over", f"{n} concurrent {method!r} requests without params: the peer, reading "
+                      f"after all were written, saw ids {wire_ids!r}"
+                      + (f" (callers chose {[f'p-{i}' for i in range(n)]})" if ids == "explicit" else " (not pairwise different)"), case)
+    shape = []
+    for i in range(n):
+        kind, val = outcomes[i]
+        if kind == "return":
+            if case.get("helper") != "ping" and ids == "explicit" and not (isinstance(val, dict) and val.get("for") == f"p-{i}"):
+                ctx.violation("cross_talk", f"param-less caller {i} was handed {val!r}", case)
+        else:
+            # answers are sent in the order the requests were written, so no waiter has to skip another's answer
+            ctx.violation("response_lost_in_transport", f"param-less caller {i} of {n}: every request written was answered, in "
+                          f"order, yet it ended with {val!r}; ids on the wire {wire_ids!r}", case)
+        shape.append(kind)
+    ctx.record(case, shape=shape, nontrivial=True, cls=f"paramless:{method}:{ids}", sample={"case": case, "wire_ids": wire_ids, "outcomes": shape})
+
+
 def run(ctx):
+    for n in (2, 3, 5):
+        for method in ("ping", "tools/list"):
+            for ids in ("explicit", "auto"):
+                case = {"n": n, "method": method, "ids": ids, "via": "paramless"}
+                if ctx.mine():
+                    exec_paramless_case(ctx, case)
+        case = {"n": n, "method": "ping", "ids": "auto", "helper": "ping", "via": "paramless"}
+        if ctx.mine():
+            exec_paramless_case(ctx, case)
     for n in (2, 3):
         for perm in itertools.permutations(range(n)):
             for conns in (1, 2):
@@ -569,6 +647,9 @@ def run(ctx):
 
 
 def replay(ctx, case):
+    if case.get("via") == "paramless":
+        exec_paramless_case(ctx, case)
+        return
     if case.get("via") == "stdio_routed":
         exec_stdio_routed_case(ctx, case)
         ctx.record({"x": 1}, shape=1)
